@@ -202,6 +202,22 @@ pub fn run(thorough: bool, mut rng: Rng, mut out: Out) {
         let v = (rng.next() as i64) >> (64 - bits);
         int_case(&mut out, v, rng.chance(1, 2));
     }
+    // ---- (0) the writer's high-tag-number form (tag numbers > 30): outside C07's quantifier (the parser
+    // does not read that form back), but the model has the branch - keep it tied: writer output only
+    for id in [31u64, 32, 127, 128, 129, 16383, 16384, 2097151, 2097152, 4294967295, 4294967296, u64::MAX >> 1, u64::MAX] {
+        for class in [lber::common::TagClass::Universal, lber::common::TagClass::Context] {
+            for constructed in [false, true] {
+                let t = StructureTag { class, id, payload: if constructed { PL::C(vec![]) } else { PL::P(vec![0x41]) } };
+                let canon = tlv(&t);
+                out.case(&canon, true);
+                out.stat("writer.high-tag-number");
+                match guarded(|| real_encode(&t)) {
+                    Ok(e) => out.m(&format!("ber.enc {}", canon), &hex(&e)),
+                    Err(_) => out.m(&format!("ber.enc {}", canon), "panic"),
+                }
+            }
+        }
+    }
     // ---- (i) trees: writer and parser against the model; round trip oracle
     let ntrees = if thorough { 60000 } else { 6000 };
     for n in 0..ntrees {
